@@ -386,13 +386,18 @@ class FnTr:
             names = [t.id for t in s.targets]
             if self.kwarg in names:
                 raise Untranslatable("%s: kwargs reassigned" % self.node.name)
-            body = k(env | set(names))
+            fr = self.is_fresh(s.value, env)
+            env2 = env | set(names)
+            env2 = (env2 | {"fresh:" + n for n in names}) if fr and isinstance(s.value, ast.Constant) else (env2 - {"fresh:" + n for n in names})
+            body = k(env2)
             for nm in reversed(names):
                 body = "let v_%s := %s in\n%s" % (nm, a, body)
             return self.wrap(b, body)
         if isinstance(s, (ast.Assign, ast.AugAssign)):
             name, b, a = self.assign(s, env)
-            return self.wrap(b, "let v_%s := %s in\n%s" % (name, a, k(env | {name})))
+            fresh = isinstance(s, ast.AugAssign) or self.is_fresh(s.value, env)
+            env2 = (env | {name, "fresh:" + name}) if fresh else ((env | {name}) - {"fresh:" + name})
+            return self.wrap(b, "let v_%s := %s in\n%s" % (name, a, k(env2)))
         if isinstance(s, ast.If):
             c = self.C(s.test, env)
             cn = self.fresh("c")
@@ -410,6 +415,22 @@ class FnTr:
         if isinstance(s, ast.Try):
             return self.try_(s, env, k)
         raise Untranslatable("%s: statement %s" % (self.node.name, type(s).__name__))
+
+    def is_fresh(self, e, env):
+        """Is the value of e an object nobody else can hold (so that an in-place operator on it is an assignment)?"""
+        if isinstance(e, ast.Constant):
+            return True
+        if isinstance(e, ast.Name):
+            return "fresh:" + e.id in env or (e.id not in env and e.id not in self.assigned and e.id not in self.params)
+        if isinstance(e, (ast.BinOp, ast.Compare, ast.BoolOp, ast.UnaryOp)):
+            return True            # operators on the modelled kinds build new objects
+        if isinstance(e, ast.Subscript) and isinstance(e.slice, ast.Slice):
+            return True            # a slice is a copy
+        if isinstance(e, ast.IfExp):
+            return self.is_fresh(e.body, env) and self.is_fresh(e.orelse, env)
+        if isinstance(e, ast.Call) and isinstance(e.func, ast.Name) and e.func.id in ("len", "bytes", "val2bytes", "bytes2val", "calc_checksum", "getinputmode"):
+            return True
+        return False
 
     @staticmethod
     def super_call(c):
@@ -435,6 +456,10 @@ class FnTr:
             if not isinstance(s.target, ast.Name):
                 raise Untranslatable("%s: assignment target" % self.node.name)
             name = s.target.id
+            if "fresh:" + name not in env:
+                # `x op= e` updates the object x is bound to in place when that object is mutable (a bytearray or
+                # list handed in by the caller): only translated as `x = x op e` when x cannot be shared
+                raise Untranslatable("%s: in-place operator on %s, which may be an object shared with the caller" % (self.node.name, name))
             b, a = self.E(ast.BinOp(left=ast.Name(id=name, ctx=ast.Load()), op=s.op, right=s.value), env)
         if name == self.kwarg:
             raise Untranslatable("%s: kwargs reassigned" % self.node.name)
@@ -504,7 +529,7 @@ class FnTr:
         bi, ai = self.E(s.iter, env)
         x = s.target.id
         names = []
-        inner = env | {x}
+        inner = (env | {x}) - {"fresh:" + x}
         steps = []
         for st in s.body:
             name, b, a = self.assign(st, inner)
